@@ -1665,6 +1665,9 @@ class rx:
             except Exception as e:
                 self._error_state = e
                 raise e
+            # A synchronously computed value supersedes any asynchronous
+            # evaluation that is still pending for this expression.
+            self._current_task = None
             self._current_ = current = obj
         else:
             current = self._current_
